@@ -1945,7 +1945,7 @@ func (p *wat2cWorker) buildFunc_ins(w io.Writer, fn *ast.Func, stk *valueTypeSta
 	case token.INS_F32_NEAREST:
 		sp0 := stk.Pop(token.F32)
 		ret0 := stk.Push(token.F32)
-		fmt.Fprintf(w, "%sR%d.f32 = roundf(R%d.f32); // %s\n",
+		fmt.Fprintf(w, "%sR%d.f32 = rintf(R%d.f32); // %s\n",
 			indent, ret0, sp0,
 			insString(i),
 		)
@@ -2050,7 +2050,7 @@ func (p *wat2cWorker) buildFunc_ins(w io.Writer, fn *ast.Func, stk *valueTypeSta
 	case token.INS_F64_NEAREST:
 		sp0 := stk.Pop(token.F64)
 		ret0 := stk.Push(token.F64)
-		fmt.Fprintf(w, "%sR%d.f64 = round(R%d.f64); // %s\n",
+		fmt.Fprintf(w, "%sR%d.f64 = rint(R%d.f64); // %s\n",
 			indent, ret0, sp0,
 			insString(i),
 		)
